@@ -225,6 +225,36 @@ def build_model():
         return exe, log
 
 
+def oom_table():
+    """the table extracted from the explicit-heap allocation-failure model (coq/Oom.v, coq/OomExtract.v):
+    {instance: set of fault indices k for which the model reports failure through the return value}"""
+    with Lock('model'):
+        rc, out = coq_make(['Oom.vo'])
+        if rc != 0:
+            raise BuildError('Oom.v does not compile:\n' + out[-3000:])
+        d = os.path.join(BUILD, 'oom')
+        os.makedirs(d, exist_ok=True)
+        exe = os.path.join(d, 'oomtab')
+        srcs = [os.path.join(COQ, 'Oom.vo'), os.path.join(COQ, 'OomExtract.v'), os.path.join(VERIF, 'ocaml', 'oom_main.ml')]
+        if not os.path.exists(exe) or any(os.path.getmtime(x) > os.path.getmtime(exe) for x in srcs):
+            rc, out = sh(['coqc', '-Q', COQ, 'LC', os.path.join(COQ, 'OomExtract.v'), '-o', os.path.join(d, 'OomExtract.vo')], cwd=d)
+            if rc != 0:
+                raise BuildError('extraction of the OOM table failed:\n' + out[-3000:])
+            shutil.copy(os.path.join(VERIF, 'ocaml', 'oom_main.ml'), d)
+            rc, out = sh('ocamlfind ocamlopt -w -a oom_table.mli oom_table.ml oom_main.ml -o oomtab', cwd=d)
+            if rc != 0:
+                raise BuildError('OOM table program does not build:\n' + out[-3000:])
+        rc, out = sh([exe])
+        if rc != 0:
+            raise BuildError('OOM table program failed:\n' + out[-1000:])
+    tab = {}
+    for line in out.split('\n'):
+        m = re.match(r'(\d+):((?: \d+)*)$', line.strip())
+        if m:
+            tab[int(m.group(1))] = set(int(x) for x in m.group(2).split())
+    return tab
+
+
 # ---------------------------------------------------------------- running
 
 def parse_results(text):
